@@ -180,6 +180,13 @@ def stepLine (st : St) (ws : List String) (_impl : String) : St × Ans :=
                   else
                     (st, { m := s!"{name}<keygen:status=200:channel={hexOfBytes respChan}:key=?:master={k.master}:contract={k.contract}:sign={k.signature}:perms={k.permissions}:path={k.targetPath}:hash={k.target}:expires~{k.expires}|puback:{mid}" })
       | _, _, _, _, _, _ => (st, bad)
+  | ["saltspread", _, k, _] =>
+      -- keys minted from a valid master carry fresh random salts; from anything else nothing is minted
+      let env := st.env st.b.banned
+      let ok := match env.decrypt (st.keyOf k) with
+        | some pk => pk.isMaster && !pk.isExpired st.now && env.contractOk pk
+        | none => false
+      (st, { m := if ok then "distinct" else "no-keys" })
   | ["restart"] =>
       ({ st with b := { mode := st.b.mode, banned := st.b.banned }, order := [] }, { m := "ok" })
   | ["remote-new", _, _, _] => ({ st with remoteBanned := [] }, { m := "ok" })
